@@ -30,9 +30,9 @@ Without(f, S) == [x \in (DOMAIN f) \ S |-> f[x]]
 
 \* attribute slots of the object kinds used (a secret key): byte strings, a boolean, a mechanism set, a nested template
 ByteSlots   == {"lab", "val", "date"}
-Slots       == ByteSlots \cup {"flag", "mech", "tmpl"}
+Slots       == ByteSlots \cup {"flag", "mech", "tmpl", "utmpl"}     \* (utmpl: CKA_UNWRAP_TEMPLATE, never supplied: stays empty)
 Settable    == {"lab", "flag", "date"}          \* C_SetAttributeValue / C_CopyObject may change these
-Default(s)  == IF s = "flag" THEN "F" ELSE IF s \in {"mech", "tmpl"} THEN "none" ELSE ""
+Default(s)  == IF s = "flag" THEN "F" ELSE IF s \in {"mech", "tmpl", "utmpl"} THEN "none" ELSE ""
 Blank       == [s \in Slots |-> Default(s)]
 
 Bad(tmpl)   == \E i \in DOMAIN tmpl : tmpl[i][1] = "bad"
